@@ -344,6 +344,7 @@ GEN_FAMILIES = {
     "G8": ("MC_Gen_G8.cfg", 220, None),
     "G8b": ("MC_Gen_G8b.cfg", None, None),
     "H1": ("MC_Gen_H1.cfg", None, None),
+    "G2d": ("MC_Gen_G2d.cfg", None, None),
 }
 
 
@@ -419,7 +420,7 @@ def gen_pipeline(tier, seed):
     recs = []
     for i, c in enumerate(cases):
         runs = [{"reg": c["reg"], "settings": c["settings"], "dedup": True, "composites": True, "teq": [], "repeat": 0, "retain": c["retain"]}]
-        if c["tog"]:
+        if c["cf"] and c["perms"] and (not c["fam"].startswith("G1a") or i % 6 == 0):
             # C17: the permuted registries chosen by TLC are generated and de-duplicated as further runs of the case
             for pm in c["perms"]:
                 runs.append({"reg": pm["reg"], "settings": c["settings"], "dedup": True, "composites": False, "teq": [], "repeat": 0})
@@ -728,7 +729,7 @@ def check_c05(tier, seed):
 
 
 def check_c17(tier, seed):
-    return check_genprop("C17", ["C17."], lambda v: v["tog"] and v["nruns"] > 1,
+    return check_genprop("C17", ["C17."], lambda v: v["cf"] and v["nruns"] > 1,
                          GEN_RULE + "for every case in the coincidence-free one-definition-per-path domain TLC emits two permutations of the registry (reverse, rotation) with consistent "
                          "renumbering (Registry.tla: Permute); the crate generates and de-duplicates all of them: token fingerprints must be equal and the rename partitions must "
                          "correspond under the permutation; scale-info's own retain() restricts the registry to the closure of one id and every retained path must yield the same item; "
@@ -1388,7 +1389,8 @@ def selfcheck():
                 print(("ok   " if ok else "FAIL ") + os.path.join(d, f))
                 if not ok:
                     bad += 1
-                    log(r.stdout[-1500:])
+                    errs = [l for l in r.stdout.splitlines() if 'rror' in l or 'Unknown' in l or 'line ' in l]
+                    log("\n".join(errs[:8]))
     return 2 if bad else 0
 
 
